@@ -161,7 +161,15 @@ pub fn gen_case(rng: &mut Rng, idx: u64) -> Case {
             mk("json", GCase::json("mutjs", &v.to_string()), "json_tree_mutation")
         }
         8 => mk("lark", GCase::lark("deep_paren", &format!("start: {}\n", nest("(", ")", "\"a\"", depth))), "deep_parens"),
-        9 => mk("lark", GCase::lark("deep_brack", &format!("start: {}\n", nest("[", "]", "\"a\"", depth))), "deep_brackets"),
+        9 => {
+            if rng.chance(1, 2) {
+                mk("lark", GCase::lark("deep_brack", &format!("start: {}\n", nest("[", "]", "\"a\"", depth))), "deep_brackets")
+            } else {
+                // inline grammars nested in inline grammars
+                let d = depth.min(20000);
+                mk("lark", GCase::lark("deep_inline", &format!("start: {}\n", nest("%lark { start: ", " }", "\"a\"", d))), "deep_nested_inline_grammars")
+            }
+        }
         10 => mk("lark", GCase::lark("deep_not", &format!("start: T\nT: {}/a/\n", "~".repeat(depth))), "deep_not"),
         11 => mk("regex", GCase::regex("deep_rx", &nest("(", ")", "a", depth)), "deep_regex_group"),
         12 => mk("regex", GCase::regex("deep_rx_rep", &format!("a{}", "{2}".repeat(depth.min(2000)))), "nested_repeat"),
